@@ -99,7 +99,7 @@ KNOWN = {
     "read_key_str": {"ccf62af5ab74fe48"},
     "write_key": {"80ba479b1e14a23a"},
     "aux_read_block": {"f0f3df3eae996845"},
-    "aux_write_loop": {"5354cbc54052233d"},
+    "aux_write_loop": {"5354cbc54052233d", "2ffe00d867f25bea"},   # second: with repo patch C08_2 (coefficient write_pix moved between the aux loop and the knot loop; the loop itself is unchanged)
     "c_get_key": {"ca9051007a02b999"},
     "c_read_key": {"0c955a41c4f2a000"},
     "c_write_key": {"355da0b52c5f5452"},
